@@ -224,3 +224,44 @@ pub proof fn lemma_rec_step(d: Seq<usize>, p: Seq<usize>, c: usize, lvl: int)
     assert(cn * s + s == ((c + 1) as nat) * s) by(nonlinear_arith) requires cn == c as nat;
     assert(q.drop_last() =~= p);
 }
+
+// ---- the column mapping of the whole draw schema ------------------------------------------------------------
+
+/// size of a named dimension as the code reads it (`*dim_sizes.get(dim).unwrap_or(&1) as usize`)
+pub open spec fn dim_size(sizes: Map<Seq<char>, u64>, dim: Seq<char>) -> usize {
+    if sizes.contains_key(dim) { sizes[dim] as usize } else { 1 }
+}
+/// declared shape of a variable
+pub open spec fn shape_of(sizes: Map<Seq<char>, u64>, dims: Seq<Seq<char>>) -> Seq<usize> {
+    Seq::new(dims.len(), |t: int| dim_size(sizes, dims[t]))
+}
+/// the types the CSV backend prints as parameter columns
+pub open spec fn numeric(t: ItemType) -> bool { t is F64 || t is F32 || t is I64 || t is U64 }
+
+/// [C14.c4] the columns of one variable: column j of the variable reads flat row-major index j of THAT variable
+pub open spec fn var_cols(name: Seq<char>, shape: Seq<usize>) -> Seq<(Seq<char>, usize)> {
+    Seq::new(prod(shape), |j: int| (name, j as usize))
+}
+/// [C14.c4] the columns of the first n variables of the schema, in schema order
+pub open spec fn cols_upto<M: Math, S: Settings>(settings: &S, math: &M, n: int) -> Seq<(Seq<char>, usize)>
+    decreases n
+{
+    if n <= 0 { Seq::empty() } else {
+        let v = settings.data_schema(math)[n - 1];
+        cols_upto(settings, math, n - 1)
+            + (if numeric(settings.type_of(math, v.name)) { var_cols(v.name, shape_of(math.dim_sizes_spec(), v.dims)) } else { Seq::empty() })
+    }
+}
+pub open spec fn map_view(m: Seq<(String, usize)>) -> Seq<(Seq<char>, usize)> { Seq::new(m.len(), |j: int| (m[j].0@, m[j].1)) }
+
+/// what generate_column_names_and_indices_for_variable needs: the flattened variable is addressable and its
+/// coordinate labels (if any) have one label per index  (see REPORT: nothing in /repo checks the latter)
+pub open spec fn var_ok(sizes: Map<Seq<char>, u64>, coords: Map<Seq<char>, Value>, dims: Seq<Seq<char>>) -> bool {
+    prod(shape_of(sizes, dims)) <= usize::MAX
+    && forall|t: int| 0 <= t < dims.len() ==> (coords.contains_key(#[trigger] dims[t]) && coords[dims[t]] is Strings
+            ==> coords[dims[t]]->Strings_0@.len() == dim_size(sizes, dims[t]))
+}
+pub open spec fn schema_ok<M: Math, S: Settings>(settings: &S, math: &M) -> bool {
+    forall|j: int| 0 <= j < settings.data_schema(math).len() ==>
+        var_ok(math.dim_sizes_spec(), math.coords_spec(), (#[trigger] settings.data_schema(math)[j]).dims)
+}
